@@ -415,3 +415,30 @@ pub async fn read_ip_list(path: &str) -> Result<SmallVec<IpAddr, 4>> {
         reload::IpReload::Refuse(_) => Ok(SmallVec::new()),
     }
 }
+
+/// Re-exports of the private event-loop arms for the out-of-tree checker
+/// (feature `verif-hooks`). Add-only; nothing in the crate uses this module.
+#[cfg(feature = "verif-hooks")]
+pub mod verif_hooks {
+    pub use super::connections::reconnect_uplink;
+    pub use super::housekeeping::handle_housekeeping;
+    pub use super::packet_handler::{
+        InstantForwarder, flush_all_batches, handle_srt_packet, handle_uplink_packet,
+        process_connection_events,
+    };
+    pub use super::reload::{IpReload, analyze_ip_reload, analyze_ip_reload_text};
+    pub use super::uplink::{
+        ConnIo, ConnIoMap, ConnectionId, ReaderHandle, UplinkPacket, create_uplink_channel,
+    };
+    pub use super::uplink_recv::process_uplink_packet;
+
+    /// Public wrapper of the crate-private NAK attribution.
+    pub fn attribute_nak(
+        connections: &mut [srtla_core::connection::SrtlaConnection],
+        seq_tracker: &super::SequenceTracker,
+        nak: u32,
+        current_time_ms: u64,
+    ) -> Option<usize> {
+        super::packet_handler::attribute_nak(connections, seq_tracker, nak, current_time_ms)
+    }
+}
